@@ -1,4 +1,5 @@
 import PytmeModel.Proofs.C03
+import PytmeModel.Model.C03
 import PytmeModel.Props.C01
 import PytmeModel.Proofs.C01Field
 import Mathlib.Tactic.Ring
@@ -695,6 +696,104 @@ the stored rotation (one voxel, values as integers ranks; from the backend's str
 theorem strictBest_keeps_first (cur : Int × Int) (v : Int) (id : Int) (h : v ≤ cur.1) :
     (if v > cur.1 then (v, id) else cur) = cur := by
   simp [not_lt.mpr h]
+
+/-! ### the whole history of one voxel (`Model/C03.strictFold`): the first maximal submission above the threshold wins -/
+
+/-- a submission never lowers the stored value -/
+theorem strictStep_fst_ge (cur s : Int × Int) : cur.1 ≤ (strictStep cur s).1 := by
+  unfold strictStep
+  split <;> omega
+
+/-- submissions that all stay below `v` leave a state below `v` below `v` -/
+theorem strictFold_below (v : Int) : ∀ (pre : List (Int × Int)) (cur : Int × Int),
+    (∀ x ∈ pre, x.1 < v) → cur.1 < v → (pre.foldl strictStep cur).1 < v := by
+  intro pre
+  induction pre with
+  | nil => intro cur _ h; simpa using h
+  | cons x xs ih =>
+    intro cur hx hc
+    rw [List.foldl_cons]
+    apply ih
+    · intro y hy; exact hx y (List.mem_cons_of_mem _ hy)
+    · have hx1 := hx x (List.mem_cons_self)
+      unfold strictStep
+      split <;> assumption
+
+/-- later submissions that do not exceed the stored value change neither the value nor the rotation id -/
+theorem strictFold_keeps (s : Int × Int) : ∀ (post : List (Int × Int)),
+    (∀ x ∈ post, x.1 ≤ s.1) → post.foldl strictStep s = s := by
+  intro post
+  induction post with
+  | nil => intro _; rfl
+  | cons x xs ih =>
+    intro hx
+    rw [List.foldl_cons]
+    have hx1 := hx x (List.mem_cons_self)
+    have : strictStep s x = s := by
+      unfold strictStep
+      rw [if_neg (by omega)]
+    rw [this]
+    exact ih (fun y hy => hx y (List.mem_cons_of_mem _ hy))
+
+/-- **the first maximum wins**: if submission `s` exceeds the threshold, everything scored before it is strictly
+smaller and nothing scored after it is larger (ties included), the voxel reports exactly `s`: its value and its
+rotation id — for histories of any length. -/
+theorem strictFold_first_max (thr : Int) (pre post : List (Int × Int)) (s : Int × Int)
+    (hthr : thr < s.1) (hpre : ∀ x ∈ pre, x.1 < s.1) (hpost : ∀ x ∈ post, x.1 ≤ s.1) :
+    strictFold thr (pre ++ s :: post) = s := by
+  unfold strictFold
+  rw [List.foldl_append, List.foldl_cons]
+  have h1 := strictFold_below s.1 pre (thr, -1) hpre hthr
+  generalize pre.foldl strictStep (thr, -1) = c at h1 ⊢
+  have : strictStep c s = s := by
+    unfold strictStep
+    rw [if_pos (by omega)]
+  rw [this]
+  exact strictFold_keeps s post hpost
+
+/-- a voxel that no rotation lifts above the threshold keeps the threshold and the "no rotation" id `-1`
+(a score equal to the threshold is not an improvement) -/
+theorem strictFold_none (thr : Int) (subs : List (Int × Int)) (h : ∀ x ∈ subs, x.1 ≤ thr) :
+    strictFold thr subs = (thr, -1) := by
+  unfold strictFold
+  exact strictFold_keeps (thr, -1) subs h
+
+/-- the stored value is an upper bound of the threshold and of every submission -/
+theorem strictFold_ge (thr : Int) (subs : List (Int × Int)) :
+    thr ≤ (strictFold thr subs).1 ∧ ∀ x ∈ subs, x.1 ≤ (strictFold thr subs).1 := by
+  unfold strictFold
+  have mono : ∀ (l : List (Int × Int)) (c : Int × Int), c.1 ≤ (l.foldl strictStep c).1 := by
+    intro l
+    induction l with
+    | nil => intro c; simp
+    | cons y ys ih =>
+      intro c
+      rw [List.foldl_cons]
+      exact le_trans (strictStep_fst_ge c y) (ih _)
+  refine ⟨mono subs (thr, -1), ?_⟩
+  have all : ∀ (l : List (Int × Int)) (c : Int × Int), ∀ x ∈ l, x.1 ≤ (l.foldl strictStep c).1 := by
+    intro l
+    induction l with
+    | nil => intro c x hx; cases hx
+    | cons y ys ih =>
+      intro c x hx
+      rw [List.foldl_cons]
+      rcases List.mem_cons.mp hx with rfl | hx'
+      · refine le_trans ?_ (mono ys _)
+        unfold strictStep
+        split <;> omega
+      · exact ih _ x hx'
+  exact all subs (thr, -1)
+
+/-- the planted rotation scoring strictly higher than every other sampled rotation is the one reported,
+wherever it stands in the rotation set -/
+theorem strictFold_planted (thr : Int) (pre post : List (Int × Int)) (s : Int × Int)
+    (hthr : thr < s.1) (hpre : ∀ x ∈ pre, x.1 < s.1) (hpost : ∀ x ∈ post, x.1 < s.1) :
+    (strictFold thr (pre ++ s :: post)).2 = s.2 := by
+  rw [strictFold_first_max thr pre post s hthr hpre (fun x hx => le_of_lt (hpost x hx))]
+
+example : strictFold 0 ([(3, 0), (5, 1)] ++ (7, 2) :: [(7, 3), (2, 4)]) = (7, 2) := by decide
+example : strictFold 5 [(5, 0), (1, 1)] = (5, -1) := by decide
 
 /-! ### non-vacuity -/
 example : (⟨[3], fun _ => (1 : ℚ), fun k => (k.headD 0 : ℚ), fun k => (k.headD 0 : ℚ)⟩ : Win ℚ).n = 3 := by
